@@ -19,4 +19,10 @@ for f in base.findings:
         print("LOST:", f.line()[:200])
 for u in ctx.unknowns[len(base.unknowns):]:
     print("UNKNOWN:", u[0], u[1][:300])
+from collections import Counter
+cb = Counter((o[0], o[2]) for o in base.obligations)
+ct = Counter((o[0], o[2]) for o in ctx.obligations)
+for k in sorted(set(cb) | set(ct)):
+    if cb[k] != ct[k]:
+        print("OBLIGATIONS", k, cb[k], "->", ct[k])
 print(len(base.obligations), "->", len(ctx.obligations), "obligations")
